@@ -344,6 +344,20 @@ fn honest_reg(p: &PoolSpec) -> Reg {
     }
 }
 
+/// An honest, certified signer of pool `p` (used by the stake-distribution section of C11).
+pub fn honest_signer_with_stake(p: &PoolSpec, stake: u64) -> mithril_common::entities::SignerWithStake {
+    let reg = honest_reg(p);
+    let t = typed(&reg).expect("honest registration decodes");
+    mithril_common::entities::SignerWithStake {
+        party_id: mat(p.seed).pool_id.clone(),
+        verification_key_for_concatenation: ProtocolKey::new(t.vk),
+        verification_key_signature_for_concatenation: t.sig.map(ProtocolKey::new),
+        operational_certificate: t.opcert.map(ProtocolKey::new),
+        kes_evolutions: reg.announced.map(KesEvolutions),
+        stake,
+    }
+}
+
 struct Ctx<'a> {
     own: &'a PoolSpec,
     other: &'a PoolSpec,
